@@ -12,6 +12,13 @@ def build(run):
     run.verify_c([c], files=FILES, registry=reg)
     # "same result as the reference semantics": the functional contracts of the kernels (proved in the
     # per-property checks) are part of this property too
+    from contracts import c_svecs as SV
+    from contracts import c_nac as NAC
+    run.verify_c([SV.dense_contract(run.sink), SV.sparse_contract(run.sink), SV.sparse_contract(run.sink, tie_bound=False)])
+    mb = NAC.multiply_borns_at_ij_contract()
+    run.verify_c([mb])
+    run.verify_c([NAC.multiply_borns_contract()], registry={"multiply_borns_at_ij": mb})
+    run.verify_c([NAC.multiply_borns_safety_contract()])
     import importlib
     for pid in ("C02", "C06", "C07", "C01", "C12", "C10"):
         importlib.import_module("props." + pid).build(run)
